@@ -84,15 +84,18 @@ pub fn process_cell<T: CoordsFloat>(
                 .filter(|i_seg| !(*i_seg == id || (i_seg + 1) % n == id))
                 .map(|i_seg| {
                     let (v1, v2) = (&vertices[i_seg], &vertices[(i_seg + 1) % n]);
-                    Vertex2::cross_product_from_vertices(v0, v1, v2)
+                    // the product, and what "zero" means for it: relative to the lengths
+                    // involved, so that the test does not depend on the length unit
+                    let tol = T::epsilon() * (*v1 - *v0).norm() * (*v2 - *v0).norm();
+                    (Vertex2::cross_product_from_vertices(v0, v1, v2), tol)
                 });
-            let first = tmp.next().unwrap();
-            if first.abs() < T::epsilon() {
+            let (first, tol) = tmp.next().unwrap();
+            if first.abs() <= tol {
                 return None;
             }
             let signum = first.signum();
-            for v in tmp {
-                if v.signum() != signum || v.abs() < T::epsilon() {
+            for (v, tol) in tmp {
+                if v.signum() != signum || v.abs() <= tol {
                     return None;
                 }
             }
